@@ -187,3 +187,20 @@ package twig
 //@   flag errreset Loader.Load
 //@   flag errwrapper loadError causes
 //@   loop 2 invariant pendErr == nil || (exists i int :: 0 <= i && i < len(loaderErrors) && wraps(loaderErrors[i], pendErr))
+
+// ---------------------------------------------------------------- render contexts (C01, C06, C18)
+//@ func NewRenderContext props: C06 C01
+//@   nilable env engine
+//@   fresh
+//@   ensures !ret.sandboxed && ret.env == env && ret.engine == engine && ret.parent == nil
+//@ func (*RenderContext).Clone props: C06 C01
+//@   fresh
+//@   ensures ret.sandboxed == ctx.sandboxed && ret.env == ctx.env && ret.engine == ctx.engine && ret.parent == ctx
+//@ iface SecurityPolicy.IsFilterAllowed
+//@   assumed
+//@   pure
+//@   ensures ret == allowedFilter(recv, filter)
+//@ iface SecurityPolicy.IsFunctionAllowed
+//@   assumed
+//@   pure
+//@   ensures ret == allowedFunction(recv, function)
